@@ -5,6 +5,7 @@ package core
 import (
 	"fmt"
 	"go/ast"
+	"go/constant"
 	"go/token"
 	"go/types"
 	"os"
@@ -246,7 +247,12 @@ func recordFuncVars(prog *ssa.Program, rootSet map[*types.Package]bool) {
 		if u.fn != nil && u.stores == 1 && !u.other {
 			FuncVars[g] = u.fn
 		}
+		if u.stores == 0 && !u.other {
+			NilFuncVars[g] = true
+		}
 	}
+	recordErrVars(prog, rootSet)
+	recordSoleImpls(prog, rootSet)
 	// fields: every store into the field, anywhere, stores the same function (set by the one constructor)
 	type fuse struct {
 		fn    *ssa.Function
@@ -324,6 +330,97 @@ func FuncFieldKey(ptrT types.Type, i int) (string, bool) {
 	return nt.String() + "." + st.Field(i).Name(), true
 }
 
+// NilFuncVars: package-level function variables of the tree that nothing ever assigns and whose address is never
+// taken (a diagnostics hook that is nil by default): they are nil for good, and a call through one never happens.
+var NilFuncVars = map[*ssa.Global]bool{}
+
+// SoleImpl: for an interface type declared in the tree, the one concrete type that is ever converted to it anywhere
+// in the program — when every value of the interface comes from such a conversion (no interface-to-interface
+// conversion or type assertion produces one). Calls of its methods are then calls of that type's methods.
+var SoleImpl = map[string]types.Type{}
+
+var soleProg *ssa.Program
+
+func recordSoleImpls(prog *ssa.Program, rootSet map[*types.Package]bool) {
+	soleProg = prog
+	type seen struct {
+		t     types.Type
+		mixed bool
+	}
+	m := map[string]*seen{}
+	key := func(t types.Type) (string, bool) {
+		nt, ok := t.(*types.Named)
+		if !ok || nt.Obj().Pkg() == nil || !rootSet[nt.Obj().Pkg()] {
+			return "", false
+		}
+		if _, isI := nt.Underlying().(*types.Interface); !isI {
+			return "", false
+		}
+		return nt.String(), true
+	}
+	note := func(t types.Type, conc types.Type) {
+		k, ok := key(t)
+		if !ok {
+			return
+		}
+		e := m[k]
+		if e == nil {
+			e = &seen{}
+			m[k] = e
+		}
+		switch {
+		case conc == nil:
+			e.mixed = true
+		case e.t == nil:
+			e.t = conc
+		case !types.Identical(e.t, conc):
+			e.mixed = true
+		}
+	}
+	for fn := range ssautil.AllFunctions(prog) {
+		for _, b := range fn.Blocks {
+			for _, in := range b.Instrs {
+				switch t := in.(type) {
+				case *ssa.MakeInterface:
+					note(t.Type(), t.X.Type())
+				case *ssa.ChangeInterface:
+					note(t.Type(), nil)
+				case *ssa.TypeAssert:
+					note(t.AssertedType, nil)
+				}
+			}
+		}
+	}
+	for k, e := range m {
+		if e.t != nil && !e.mixed {
+			SoleImpl[k] = e.t
+			if os.Getenv("HRDEBUG") != "" {
+				fmt.Fprintf(os.Stderr, "sole implementation of %s: %s\n", k, e.t)
+			}
+		}
+	}
+}
+
+// soleImplMethod: the method an interface method call reaches when the interface has one implementation (SoleImpl).
+func soleImplMethod(c *ssa.CallCommon) *ssa.Function {
+	if soleProg == nil || !c.IsInvoke() {
+		return nil
+	}
+	nt, ok := c.Value.Type().(*types.Named)
+	if !ok {
+		return nil
+	}
+	conc, ok := SoleImpl[nt.String()]
+	if !ok {
+		return nil
+	}
+	sel := soleProg.MethodSets.MethodSet(conc).Lookup(c.Method.Pkg(), c.Method.Name())
+	if sel == nil {
+		return nil
+	}
+	return soleProg.MethodValue(sel)
+}
+
 // Callee: the function a call instruction calls when that is known without a call graph — a static callee, or the
 // function held by a write-once package variable the call goes through.
 func Callee(c *ssa.CallCommon) *ssa.Function {
@@ -331,7 +428,7 @@ func Callee(c *ssa.CallCommon) *ssa.Function {
 		return f
 	}
 	if c.IsInvoke() {
-		return nil
+		return soleImplMethod(c)
 	}
 	if ld, ok := c.Value.(*ssa.UnOp); ok && ld.Op == token.MUL {
 		if g, ok := ld.X.(*ssa.Global); ok {
@@ -488,4 +585,152 @@ func (p *Program) InScopePkg(path string) bool {
 		}
 	}
 	return false
+}
+
+// ErrVars: package-level error variables of the tree that are set once, in their initialiser, to errors.New or
+// fmt.Errorf of a constant text and never written again (sentinel errors): variable -> text.
+var ErrVars = map[*ssa.Global]string{}
+
+func recordErrVars(prog *ssa.Program, rootSet map[*types.Package]bool) {
+	type use struct {
+		text   string
+		ok     bool
+		stores int
+		other  bool
+	}
+	uses := map[*ssa.Global]*use{}
+	for fn := range ssautil.AllFunctions(prog) {
+		for _, b := range fn.Blocks {
+			for _, in := range b.Instrs {
+				for _, op := range in.Operands(nil) {
+					g, isG := (*op).(*ssa.Global)
+					if !isG || g.Pkg == nil || !rootSet[g.Pkg.Pkg] {
+						continue
+					}
+					nt, isN := g.Type().(*types.Pointer).Elem().(*types.Named)
+					if !isN || nt.Obj().Pkg() != nil || nt.Obj().Name() != "error" {
+						continue
+					}
+					u := uses[g]
+					if u == nil {
+						u = &use{}
+						uses[g] = u
+					}
+					switch t := in.(type) {
+					case *ssa.Store:
+						if t.Addr != ssa.Value(g) {
+							u.other = true
+							continue
+						}
+						u.stores++
+						v := t.Val
+						if mi, ok := v.(*ssa.MakeInterface); ok {
+							v = mi.X
+						}
+						call, ok := v.(*ssa.Call)
+						if !ok || call.Call.StaticCallee() == nil || len(call.Call.Args) < 1 || fn.Synthetic == "" || fn.Name() != "init" {
+							u.other = true
+							continue
+						}
+						name := call.Call.StaticCallee().String()
+						k, isC := call.Call.Args[0].(*ssa.Const)
+						if (name == "errors.New" || name == "fmt.Errorf") && isC && k.Value != nil && k.Value.Kind() == constant.String {
+							u.text, u.ok = constant.StringVal(k.Value), true
+						} else {
+							u.other = true
+						}
+					case *ssa.UnOp:
+						if t.Op != token.MUL {
+							u.other = true
+						}
+					case *ssa.DebugRef:
+					default:
+						u.other = true
+					}
+				}
+			}
+		}
+	}
+	for g, u := range uses {
+		if u.ok && u.stores == 1 && !u.other {
+			ErrVars[g] = u.text
+		}
+	}
+}
+
+// EffectiveType: t itself, or — when t is an interface of the tree with a single implementation (SoleImpl) — that
+// implementation's type: what every non-nil value of t actually is.
+func EffectiveType(t types.Type) types.Type {
+	if nt, ok := t.(*types.Named); ok {
+		if conc, ok := SoleImpl[nt.String()]; ok {
+			return conc
+		}
+	}
+	return t
+}
+
+// DeadBlocks: the blocks of fn that cannot run because they lie behind a test of a diagnostics hook that nothing
+// ever sets (NilFuncVars): the side of `hook != nil` (or the far side of `if hook == nil { return }`).
+func DeadBlocks(fn *ssa.Function) map[*ssa.BasicBlock]bool {
+	if len(NilFuncVars) == 0 || len(fn.Blocks) == 0 {
+		return nil
+	}
+	deadEdge := map[[2]*ssa.BasicBlock]bool{}
+	any := false
+	for _, b := range fn.Blocks {
+		iff, ok := b.Instrs[len(b.Instrs)-1].(*ssa.If)
+		if !ok {
+			continue
+		}
+		cmp, ok := iff.Cond.(*ssa.BinOp)
+		if !ok || (cmp.Op != token.EQL && cmp.Op != token.NEQ) {
+			continue
+		}
+		x, y := cmp.X, cmp.Y
+		if cst, ok := x.(*ssa.Const); ok && cst.IsNil() {
+			x, y = y, x
+		}
+		cst, ok := y.(*ssa.Const)
+		if !ok || !cst.IsNil() {
+			continue
+		}
+		ld, ok := x.(*ssa.UnOp)
+		if !ok || ld.Op != token.MUL {
+			continue
+		}
+		g, ok := ld.X.(*ssa.Global)
+		if !ok || !NilFuncVars[g] {
+			continue
+		}
+		// the hook is nil: `== nil` is true (Succs[0] taken), `!= nil` is false (Succs[1] taken)
+		dead := b.Succs[1]
+		if cmp.Op == token.NEQ {
+			dead = b.Succs[0]
+		}
+		deadEdge[[2]*ssa.BasicBlock{b, dead}] = true
+		any = true
+	}
+	if !any {
+		return nil
+	}
+	reach := map[*ssa.BasicBlock]bool{fn.Blocks[0]: true}
+	work := []*ssa.BasicBlock{fn.Blocks[0]}
+	for len(work) > 0 {
+		b := work[len(work)-1]
+		work = work[:len(work)-1]
+		for _, s := range b.Succs {
+			if deadEdge[[2]*ssa.BasicBlock{b, s}] || reach[s] {
+				continue
+			}
+			reach[s] = true
+			work = append(work, s)
+		}
+	}
+	out := map[*ssa.BasicBlock]bool{}
+	for _, b := range fn.Blocks {
+		if !reach[b] {
+			out[b] = true
+		}
+	}
+	return out
 }
